@@ -104,6 +104,9 @@ pub struct State {
     pub fs_switch: bool,
     /// every table/wal path removed, in order (C11 bookkeeping)
     pub removed_paths: Vec<PathBuf>,
+    /// fail every call of the given classes whose file name ends with the suffix (sticky fault by
+    /// file kind; independent of call numbering, so it is stable under schedule exploration)
+    pub fail_by_suffix: Option<(u32, String)>,
     /// if set: at every removal, the value of this clock, the path and the image right after it
     pub removal_clock: Option<&'static std::sync::atomic::AtomicU64>,
     pub removal_snaps: Vec<(u64, PathBuf, Image)>,
@@ -135,6 +138,12 @@ fn injected() -> io::Error {
 impl State {
     /// Returns Err if this call is to fail.
     fn gate(&mut self, cls: u32, what: &Path) -> io::Result<()> {
+        if let Some((mask, suffix)) = self.fail_by_suffix.as_ref() {
+            if mask & cls != 0 && what.to_string_lossy().ends_with(suffix.as_str()) {
+                self.faults_fired += 1;
+                return Err(injected());
+            }
+        }
         let counted = match &self.fault {
             Some(f) => f.classes & cls != 0,
             None => class::PROPERTY_SET & cls != 0,
